@@ -95,6 +95,9 @@ class UntypedAtomic(AnyAtomicType):
                 return op(value in ('1', 'true'), other)
             case int():
                 return op(get_double(self.value, self._xsd_version), other)
+            case Decimal():
+                # an untyped value met with a number is cast to xs:double, and so is the decimal
+                return op(get_double(self.value, self._xsd_version), float(other))
             case None | str() | list():
                 return op(self.value, other)
             case AnyAtomicType():
